@@ -410,3 +410,7 @@ Example ex_match1_dups :
     (VTuple [VNone; VInt 1; VFloat (5 # 2); VFloat (5 # 2); s_a; s_B; VBool true;
              excelutil.c_DIV0; VNone; VNone]) (VInt 1) = Ok (VInt 4).
 Proof. vm_compute. reflexivity. Qed.
+Example ex_match1_hyps : exists x, lv_key (VFloat (5 # 2)) = Ok x
+  /\ excel_ascending [VNone; VInt 1; VFloat (5 # 2); VFloat (5 # 2); s_a; s_B; VBool true;
+                      excelutil.c_DIV0; VNone; VNone].
+Proof. eexists. split; [vm_compute; reflexivity|exact ex_ascending]. Qed.
